@@ -72,6 +72,8 @@ class WorldGen:
         def keytok(kinds=None):
             k = rnd.random()
             w = kinds or P.get("keyweights", (0.4, 0.15, 0.3, 0.15))
+            if rnd.random() < P.get("rootkeys", 0.06):
+                return rnd.choice(["e", "i0"])        # the empty declaration / Interface itself as a required specification
             if k < w[0]:
                 return "i%d" % rnd.randint(1, n)
             if k < w[0] + w[1]:
@@ -542,7 +544,15 @@ class WorldGen:
             for _ in range(P.get("provq", 1)):
                 L.append("prov|%s" % keytok(P.get("provkinds")))
         L.extend(carry)
-        return L
+
+        def no_empty_key(l):
+            # the empty declaration is used as a LOOKUP key only (the model stands it for a specification nothing is registered under)
+            f = l.split("|")
+            if f[0] in ("reg", "unreg", "sub", "unsub"):
+                f[2] = " ".join("i0" if t == "e" else t for t in f[2].split())
+                return "|".join(f)
+            return l
+        return [no_empty_key(l) for l in L]
 
 
 def twin_stream(prop, profile, nscripts, ops):
